@@ -10,9 +10,9 @@ RULE = ("elevation rasters 3x3..14x14 over value classes {small ints with platea
         "descending y; azimuth/altitude sweeps; oracle = float64 evaluation of the documented formulas with a forward-error "
         "tolerance; relations: one-cell perturbation locality (exact), +constant offset and quarter turn on integer-valued rasters "
         "(exact), ranges; non-trivial = distinct (function, data hash, geometry) with relief (>= 3 distinct interior outputs)")
-BUDGET = {'quick': 80, 'thorough': 500}
+BUDGET = {'quick': 160, 'thorough': 500}
 FLOORS = {'quick': {'slope.formula': 150, 'aspect.formula': 150, 'curvature.formula': 150, 'hillshade.formula': 150,
-                    'locality': 1500, 'offset_invariance': 200, 'quarter_turn': 150, 'border_nan': 600, 'cx!=cy': 100,
+                    'locality': 1500, 'offset_invariance': 200, 'offset_invariance.window_sums_above_2^24': 150, 'quarter_turn': 150, 'border_nan': 600, 'cx!=cy': 100,
                     'flat_window': 100, 'nan_contained': 300, 'derived_raster_uses_own_cellsize': 16},
           'thorough': {'slope.formula': 1500, 'locality': 15000, 'quarter_turn': 1500}}
 ASSUMPTIONS = ['aspect and hillshade as documented do not use the cell size; slope uses (cx, cy), curvature the mean cell size',
@@ -251,7 +251,9 @@ def check(rec, kind, idx, rng, tier):
 
     # ---- offset invariance and quarter turn on integer-valued rasters (exact)
     if intval and zz.dtype.kind in 'fi' and np.isfinite(z64).any():
-        off = float(rng.choice([1000, 1, -250, 4096]))
+        # large offsets keep every elevation an integer below 2^24 (exact in float32) but push the 3x3 window sums beyond 2^24:
+        # the result stays bit-identical only if the stencil itself is evaluated in double precision, as the kernels do
+        off = float(rng.choice([1000, 1, -250, 4096, 6000000, 12000000, -8000000]))
         if zz.dtype.kind == 'f' or (np.nanmin(z64) + off >= np.iinfo(zz.dtype).min and np.nanmax(z64) + off <= np.iinfo(zz.dtype).max):
             r0 = gen.mk(zz, res=res, name='dem', **geom)
             r1 = gen.mk((zz + zz.dtype.type(off)).astype(zz.dtype), res=res, name='dem', **geom)
@@ -263,6 +265,8 @@ def check(rec, kind, idx, rng, tier):
                 d = tol.first_diff_exact(np.asarray(o1.data, dtype='float64'), np.asarray(o0.data, dtype='float64'))
                 if d is None:
                     rec.ok('offset_invariance')
+                    if abs(off) >= 2 ** 22:
+                        rec.ok('offset_invariance.window_sums_above_2^24')
                 else:
                     rec.violation(fname + '.offset', '%s changes when %r is added to every elevation: %r' % (fname, off, d),
                                   dict(base, func=fname, offset=off))
